@@ -113,6 +113,11 @@ def grid_form(chk, fi, c):
             name = t.id if isinstance(t, ast.Name) else (t.attr if isinstance(t, ast.Attribute) else None)
             if name and "freq" in name and isinstance(n.value, ast.BinOp):
                 cand.append(n)
+        elif isinstance(n, ast.Return) and isinstance(n.value, ast.Tuple):
+            # the grid handed back without a name: an arithmetic element of the returned pair built on np.arange
+            for e in n.value.elts:
+                if isinstance(e, ast.BinOp) and any(isinstance(x, ast.Call) and ast.unparse(x.func).split(".")[-1] == "arange" for x in ast.walk(e)):
+                    cand.append(ast.copy_location(ast.Assign(targets=[ast.Name(id="_returned_grid", ctx=ast.Store())], value=e), n))
     if not cand:
         chk.ob("R-FAS-TYPE", c + ".grid-form", "an arithmetic definition of the frequency grid", False, derived="none found",
                inconclusive=True, loc=fi.loc())
